@@ -88,12 +88,15 @@ def gen_model(rng: Prng, n: int) -> dict:
         t["strided"] = [c for c in ("x", "y", "z", "r", "type") if rng.chance(0.5)]
     if rng.chance(0.35):
         t["level"] = [int(rng.below(5)) for _ in range(n)]  # an extra per-node column
+        t["level_name"] = rng.choice(["level", "level", "index", "count", "cols", "label", "keys", "id_"])
+    if rng.chance(0.15):
+        t["rgb"] = [[float(rng.below(256)) for _ in range(3)] for _ in range(n)]  # a vector-valued per-node column
     return t
 
 
 def gen_step(rng: Prng) -> dict:
     k = rng.weighted([("mk", 10), ("write", 8), ("index", 4), ("detach", 3), ("copy", 2), ("write_owner", 3),
-                      ("adj", 1), ("scribble", 2)])
+                      ("adj", 1), ("scribble", 2), ("idwrite", 1)])
     s: dict = {"k": k, "t": rng.below(64), "h": rng.below(64)}
     if k == "mk":
         s["what"] = rng.weighted([("getitem", 3), ("node", 1), ("slice", 2), ("iter", 1), ("parent", 2),
@@ -111,6 +114,10 @@ def gen_step(rng: Prng) -> dict:
         s["val"] = rng.randint(1, 4000)
         s["i"] = rng.below(64)
         s["via"] = rng.choice(["attr", "item"])
+    elif k == "idwrite":
+        s["i"] = rng.below(64)
+        s["val"] = rng.randint(1, 4000)
+        s["sl"] = [rng.choice([None, rng.randint(-30, 30)]), rng.choice([None, rng.randint(-30, 30)]), rng.choice([None, 1, 2, -1])]
     elif k == "scribble":
         s["what"] = rng.choice(["branch_segs", "branch_segs", "tree_segs", "paths", "branches", "children"])
         s["how"] = rng.choice(["pop", "reverse", "clear", "extend", "del0", "double"])
@@ -162,6 +169,22 @@ def attrs_of(owner: dict) -> list:
     return ATTRS + (["level"] if "level" in owner["m"] else [])
 
 
+def rn(owner: dict, col: str) -> str:
+    """The name under which the model's extra column `level` is stored in this owner (`index`, `count`, ... are
+    ordinary column names for a tree, although they are also method names of the SWCNames tuple)."""
+    return owner.get("level_name", "level") if col == "level" else col
+
+
+def read_rgb(obj, owner: dict, ids: list[int], what: str):
+    """A vector-valued per-node column (n x 3): a view reports the ROWS of its nodes."""
+    if "rgb" not in owner:
+        return
+    got = np.asarray(obj.get_ndata("rgb"))
+    exp = np.asarray([owner["rgb"][i] for i in ids], dtype=got.dtype).reshape(len(ids), 3)
+    chk(got.shape == exp.shape and (got == exp).all(), "path_read",
+        f"{what}.get_ndata('rgb') has shape {got.shape}, values {got.reshape(-1)[:6].tolist()}; expected the rows {exp[:2].tolist()}")
+
+
 def read_node(obj, owner: dict, i: int, what: str, full: bool):
     """A node handle must read the attributes of node i of its owner."""
     m = owner["m"]
@@ -170,8 +193,8 @@ def read_node(obj, owner: dict, i: int, what: str, full: bool):
         if col != "level":
             got = getattr(obj, col)
             chk(float(got) == float(exp), "node_read", f"{what}.{col} reads {got!r}, node {i} holds {exp!r}")
-        got2 = obj[col]
-        chk(float(got2) == float(exp), "node_read", f"{what}[{col!r}] reads {got2!r}, node {i} holds {exp!r}")
+        got2 = obj[rn(owner, col)]
+        chk(float(got2) == float(exp), "node_read", f"{what}[{rn(owner, col)!r}] reads {got2!r}, node {i} holds {exp!r}")
     xyz = as_list(obj.xyz(), "x")
     chk(xyz == [m["x"][i], m["y"][i], m["z"][i]], "node_read", f"{what}.xyz() = {xyz}")
     xyzr = as_list(obj.xyzr(), "x")
@@ -186,13 +209,14 @@ def read_pathlike(obj, owner: dict, ids: list[int], what: str, deep: bool):
     chk(len(obj) == n, "path_len", f"{what}: len {len(obj)} but it refers to {n} nodes")
     for col in attrs_of(owner):
         exp = expect_cols(owner, ids, col)
-        got = as_list(obj.get_ndata(col), col)
-        chk(got == exp, "path_read", f"{what}.get_ndata({col!r}) = {got[:8]} expected {exp[:8]}")
+        got = as_list(obj.get_ndata(rn(owner, col)), col)
+        chk(got == exp, "path_read", f"{what}.get_ndata({rn(owner, col)!r}) = {got[:8]} expected {exp[:8]}")
         if col != "level":
             got = as_list(getattr(obj, col)(), col)
             chk(got == exp, "path_read", f"{what}.{col}() = {got[:8]} expected {exp[:8]}")
-        got = as_list(obj[col], col)
-        chk(got == exp, "path_read", f"{what}[{col!r}] = {got[:8]} expected {exp[:8]}")
+        got = as_list(obj[rn(owner, col)], col)
+        chk(got == exp, "path_read", f"{what}[{rn(owner, col)!r}] = {got[:8]} expected {exp[:8]}")
+    read_rgb(obj, owner, ids, what)
     m = owner["m"]
     exp = [[m["x"][i], m["y"][i], m["z"][i]] for i in ids]
     got = np.asarray(obj.xyz(), dtype=np.float64).tolist()
@@ -235,10 +259,13 @@ def read_tree(owner: dict, what: str):
     n = len(m["id"])
     chk(len(tree) == n, "tree_read", f"{what}: len {len(tree)} expected {n}")
     for col in attrs_of(owner) + ["id", "pid"]:
-        got = as_list(tree[col], col)
-        chk(got == m[col], "tree_read", f"{what}[{col!r}] differs from the model: {got[:8]} vs {m[col][:8]}")
-        got = as_list(tree.get_ndata(col), col)
-        chk(got == m[col], "tree_read", f"{what}.get_ndata({col!r}) differs")
+        got = as_list(tree[rn(owner, col)], col)
+        chk(got == m[col], "tree_read", f"{what}[{rn(owner, col)!r}] differs from the model: {got[:8]} vs {m[col][:8]}")
+        got = as_list(tree.get_ndata(rn(owner, col)), col)
+        chk(got == m[col], "tree_read", f"{what}.get_ndata({rn(owner, col)!r}) differs")
+    if "rgb" in owner:
+        got = np.asarray(tree["rgb"])
+        chk(got.shape == (n, 3) and got.tolist() == owner["rgb"], "tree_read", f"{what}['rgb'] differs")
     got = np.asarray(tree.xyzr(), dtype=np.float64).tolist()
     chk(got == [[m["x"][i], m["y"][i], m["z"][i], m["r"][i]] for i in range(n)], "tree_read", f"{what}.xyzr() differs")
     want = owner.get("comments", ["c"])
@@ -252,8 +279,12 @@ def read_dict_owner(owner: dict, what: str):
         chk(got == [m["did"][0], m["dpid"][0]], "detached_read",
             f"{what}: id/pid of the detached node read {got}, expected {[m['did'][0], m['dpid'][0]]}")
     for col in attrs_of(owner):
-        got = as_list(d.get_ndata(col), col)
-        chk(got == m[col], "detached_read", f"{what}: column {col} = {got[:8]} expected {m[col][:8]}")
+        got = as_list(d.get_ndata(rn(owner, col)), col)
+        chk(got == m[col], "detached_read", f"{what}: column {rn(owner, col)} = {got[:8]} expected {m[col][:8]}")
+    if "rgb" in owner:
+        got = np.asarray(d.get_ndata("rgb"))
+        chk(got.reshape(-1).tolist() == [v for row in owner["rgb"] for v in row] and got.shape[-1] == 3, "detached_read",
+            f"{what}: column rgb has shape {got.shape}, expected the rows {owner['rgb'][:2]}")
 
 
 def is_chain(m: dict, ids: list[int]) -> bool:
@@ -335,14 +366,19 @@ def execute(program: dict) -> dict:
                     a = np.repeat(a, 2)[::2]  # same values, stride of two elements
                 return a
 
-            extra = {"level": np.array(tm["level"], dtype=np.int32)} if "level" in tm else {}
+            lname = tm.get("level_name", "level")
+            extra = {lname: np.array(tm["level"], dtype=np.int32)} if "level" in tm else {}
+            if "rgb" in tm:
+                extra["rgb"] = np.array(tm["rgb"], dtype=np.float32)
             t = Tree(n, id=np.arange(n, dtype=np.int32), type=col("type", np.int32), x=col("x", np.float32),
                      y=col("y", np.float32), z=col("z", np.float32), r=col("r", np.float32),
                      pid=np.array(tm["pid"], dtype=np.int32), comments=["c"], source="gen", **extra)
             m = {k: list(tm[k]) for k in ATTRS + (["level"] if "level" in tm else [])}
             m["id"] = list(range(n))
             m["pid"] = list(tm["pid"])
-            owners.append({"kind": "tree", "obj": t, "m": m, "idpid": True})
+            owners.append({"kind": "tree", "obj": t, "m": m, "idpid": True, "level_name": lname})
+            if "rgb" in tm:
+                owners[-1]["rgb"] = [list(map(float, row)) for row in tm["rgb"]]
 
         def add(kind, o, ids, obj, via):
             serial[0] += 1
@@ -540,7 +576,7 @@ def execute(program: dict) -> dict:
                     if step["via"] == "attr" and col != "level":
                         setattr(h["obj"], col, val)
                     else:
-                        h["obj"][col] = val
+                        h["obj"][rn(owners[h["o"]], col)] = val
                     owners[h["o"]]["m"][col][h["ids"][0]] = val
                     if len(handles) >= 2:
                         wrote_with_handles = True
@@ -566,7 +602,7 @@ def execute(program: dict) -> dict:
                         o["obj"].comments.append(f"note {si}")
                         o.setdefault("comments", ["c"])
                         o["comments"] = o["comments"] + [f"note {si}"]
-                    o["obj"].ndata[col][i] = val
+                    o["obj"].ndata[rn(o, col)][i] = val
                     o["m"][col][i] = val
                     if len(handles) >= 2:
                         wrote_with_handles = True
@@ -581,7 +617,10 @@ def execute(program: dict) -> dict:
                     chk(list(c.comments) == list(o["obj"].comments) and c.source == o["obj"].source, "copy",
                         "copy() lost comments/source")
                     owners.append({"kind": o["kind"], "obj": c, "m": copy.deepcopy(o["m"]), "idpid": o["idpid"],
-                                   "made_by": "copy", "comments": list(o.get("comments", ["c"]))})
+                                   "made_by": "copy", "comments": list(o.get("comments", ["c"])),
+                                   "level_name": o.get("level_name", "level")})
+                    if "rgb" in o:
+                        owners[-1]["rgb"] = [list(r) for r in o["rgb"]]
                     world.log(si, "copy", oi)
                 elif k == "detach":
                     cands = [h for h in handles if h["kind"] in ("node", "path", "branch", "seg")]
@@ -599,9 +638,38 @@ def execute(program: dict) -> dict:
                         m["did"], m["dpid"] = [int(d["id"])], [int(d["pid"])]
                     chk(d is not h["obj"], "detach", "detach() returned the view itself")
                     owners.append({"kind": "dict", "obj": d.attach, "m": m, "idpid": False,
-                                   "made_by": f"detach:{h['kind']}"})
+                                   "made_by": f"detach:{h['kind']}", "level_name": o.get("level_name", "level")})
+                    if "rgb" in o:
+                        owners[-1]["rgb"] = [list(o["rgb"][i]) for i in h["ids"]]
                     add(h["kind"], len(owners) - 1, list(range(len(h["ids"]))), d, f"detach:{h['kind']}")
                     world.log(si, "detach", h["serial"], h["kind"])
+                elif k == "idwrite":
+                    # `id` is an attribute like any other: a write through a node handle is visible in the owner, and
+                    # positional access (index, slice, iteration) keeps meaning positions - SWC files number from 1,
+                    # callers renumber. The old number is written back before anything else happens.
+                    oi = tree_owner(step["t"])
+                    o = owners[oi]
+                    tree, m = o["obj"], o["m"]
+                    n = len(m["id"])
+                    i = step["i"] % n
+                    new = n + 10 + step["val"]
+                    nd = tree.node(i)
+                    nd.id = new
+                    try:
+                        chk(int(tree.id()[i]) == new and int(tree["id"][i]) == new, "tree_read", f"id written through a node handle is not visible in the owner")
+                        sl = slice(*step["sl"])
+                        exp = list(range(n))[sl]
+                        got = tree[sl]
+                        chk(len(got) == len(exp), "slice_len", f"tree[{sl}] has {len(got)} nodes, expected {len(exp)} (after an id write)")
+                        for q, (hnd, j) in enumerate(zip(got, exp)):
+                            for col in ("x", "y", "z", "r"):
+                                chk(float(hnd[col]) == float(m[col][j]), "node_read",
+                                    f"tree[{sl}][{q}].{col} reads {float(hnd[col])!r}, position {j} holds {m[col][j]!r} (after node {i} was renumbered)")
+                        for j in (0, n - 1, i):
+                            chk(float(tree[j].x) == float(m["x"][j]), "node_read", f"tree[{j}].x after an id write")
+                    finally:
+                        nd.id = m["id"][i]
+                    world.log(si, "idwrite", oi, i, new)
                 elif k == "scribble":
                     # the caller edits a CONTAINER the library returned (a list of segments, paths, branches or
                     # children) and asks again: the views are windows onto the tree, not onto the caller's list
@@ -701,7 +769,7 @@ def _drop_leaf(program: dict, ti: int, i: int):
         return None
     p = copy.deepcopy(program)
     for k in p["trees"][ti]:
-        if k != "strided":
+        if k not in ("strided", "level_name"):
             del p["trees"][ti][k][i]
     p["trees"][ti]["pid"] = [(q - 1 if q > i else q) for q in p["trees"][ti]["pid"]]
     return p
@@ -716,10 +784,12 @@ def shrink_candidates(program: dict):
             if c is not None:
                 yield c
     for ti, t in enumerate(program["trees"]):
-        for key in ("strided", "level"):
+        for key in ("strided", "level", "rgb"):
             if key in t:
                 q = copy.deepcopy(program)
                 del q["trees"][ti][key]
+                if key == "level":
+                    q["trees"][ti].pop("level_name", None)
                 yield q
     for si, s in enumerate(program["steps"]):
         for key in ("t", "h", "i", "j"):
